@@ -353,6 +353,13 @@ func makeEmptyRespM(m *dnsmsg.Msg, rcode dnsmsg.RCode) *dnsmsg.Msg {
 		resp.Questions = append(resp.Questions, q.Copy())
 		break // only return one question. Avoid malicious queries.
 	}
+	// A response to a query with an OPT record must have one.
+	for _, rr := range m.Additionals {
+		if rr.Hdr().Type == dnsmsg.TypeOPT {
+			resp.Additionals = append(resp.Additionals, newEDNS0(udpSize))
+			break
+		}
+	}
 	return resp
 }
 
